@@ -121,7 +121,13 @@ SecSeq(i, s, e) == IF i > 5 THEN <<>> ELSE (IF i \in e THEN <<EmptySec(i)>> ELSE
 EmptyChoices == { e \in SUBSET {1, 2, 3, 4, 5, 6} : Cardinality(e) = 1 \/ e = {2, 3, 5, 6} \/ (Deep /\ Cardinality(e) <= 3) }
 MessagesE == { SecSeq(1, s, e) \o b \o (IF 6 \in e THEN <<EmptySec(6)>> ELSE ft) : s \in {{}, {1, 2, 3, 4, 5}}, e \in EmptyChoices,
                b \in {<<Sec(119, Str(<<104,105>>))>>, <<Sec(117, Bin(<<1,2,3>>))>>}, ft \in {<<>>, <<Foot>>} }
-Messages == { PreSeq(s) \o b \o ft : s \in OptPre, b \in Bodies, ft \in {<<>>, <<Foot>>} } \cup MessagesE
+\* application-properties whose values are described values (a described scalar, a described list, a described map): simple values by 3.2.5
+\* as the library reads it (`SimpleValue::Described`), and what the encoder accepts the decoder has to take back
+AP2 == Sec(116, M(<<Str(<<107>>), [t |-> "described", d |-> Sym(<<120,58,121>>), x |-> Str(<<118>>)],
+                    Str(<<108>>), [t |-> "described", d |-> UL(9), x |-> L(<<UI(1), Str(<<97>>)>>)],
+                    Str(<<109>>), [t |-> "described", d |-> Sym(<<122>>), x |-> M(<<Sym(<<97>>), UI(1)>>)]>>))
+MessagesAP == { <<AP2>> \o b : b \in {<<Sec(119, Str(<<104,105>>))>>, <<Sec(117, Bin(<<1,2,3>>))>>} }
+Messages == { PreSeq(s) \o b \o ft : s \in OptPre, b \in Bodies, ft \in {<<>>, <<Foot>>} } \cup MessagesE \cup MessagesAP
 
 -----------------------------------------------------------------------------
 VARIABLE z
